@@ -334,6 +334,15 @@ func init() {
 				return res
 			}
 		}
+		if len(a) > 0 {
+			if fn, ok := evaluators[a[0]]; ok && a[0] != "published" {
+				line := strings.Join(a, " ")
+				if childOps[a[0]] {
+					return evalInChild(line)
+				}
+				return fn(a[1:])
+			}
+		}
 		return "ok"
 	})
 }
